@@ -236,6 +236,10 @@ def big_lengths(cls):
 
 def _viol(ex, st, kind, msg, model=None):
     ex.obl_failed += 1
+    if st.flags.get('stale_seen'):
+        # consequence of a reported dependence on a stale size/length member: labelled, so that it is told apart from
+        # the same symptom on a path without such a dependence
+        msg += ' [path steered by the stale member "%s"]' % st.flags['stale_seen']
     ex.violations.append(Violation(kind, msg, model if model is not None else ex.model_for(st), list(st.inputs),
                                    'judge'))
 
